@@ -459,6 +459,53 @@ func runHostile(t fatalTB, connack []byte, stream []byte, hs hostileSetup) (labe
 		}
 		returns++
 	}
+	// A BigMessage tells what its packet header announced: Topic and Size (the
+	// size ReadAll allocates) of some PUBLISH in the stream, also when only a
+	// fragment of the packet arrived.
+	checkBigs := func() {
+		type announced struct {
+			topic string
+			size  int
+		}
+		var heads []announced
+		for o := 0; o < len(stream); {
+			total, lenBytes, _, err := refmqtt.PacketLen(stream[o:])
+			if err != nil || total == 0 {
+				break
+			}
+			if stream[o]>>4 == refmqtt.PUBLISH {
+				body := stream[o+1+lenBytes:]
+				rem := total - 1 - lenBytes
+				if len(body) >= 2 {
+					tl := int(body[0])<<8 | int(body[1])
+					idLen := 0
+					if stream[o]>>1&3 != 0 {
+						idLen = 2
+					}
+					if 2+tl+idLen <= rem && 2+tl <= len(body) {
+						heads = append(heads, announced{string(body[2 : 2+tl]), rem - 2 - tl - idLen})
+					}
+				}
+			}
+			o += total
+		}
+		for i := resultsBefore; i < w.App.NResults(); i++ {
+			r := w.App.Result(i)
+			if !r.Big {
+				continue
+			}
+			found := false
+			for _, a := range heads {
+				if a.topic == r.BigTopic && a.size == r.BigSize {
+					found = true
+				}
+			}
+			if !found {
+				fail("ReadSlices returned a BigMessage with topic %q and Size %d; no PUBLISH in the stream announces that (announced: %v)", r.BigTopic, r.BigSize, heads)
+			}
+		}
+	}
+	checkBigs()
 	cur := w.Current()
 	connAlive := cur == c
 	// never waits without a deadline inside a packet
@@ -558,7 +605,8 @@ func runHostile(t fatalTB, connack []byte, stream []byte, hs hostileSetup) (labe
 					break
 				}
 			}
-			if w.App.InCall() || r.Err == nil {
+			checkBigs()
+			if w.App.InCall() || r.Err == nil || r.Big {
 				fail("the stream ends inside a packet and three PauseTimeout periods passed without a byte, yet ReadSlices did not report an error (%s)", r)
 			}
 		}
@@ -823,6 +871,14 @@ func TestC13Allocation(t *testing.T) {
 		if grown > slack && grown > announce/2 {
 			w.Script = []string{fmt.Sprintf("type %d announces %d bytes, delivers %d", typ, announce, deliver)}
 			w.Failf("receiving a packet of type %d which announces %d bytes and delivers %d made the process allocate %d bytes", typ, announce, deliver, grown)
+		}
+		// (a BigMessage for it tells what the header announced, nothing else:
+		// its Size is what ReadAll will allocate)
+		for i := 0; i < w.App.NResults(); i++ {
+			if r := w.App.Result(i); r.Big && (r.BigTopic != "big" || r.BigSize != announce-5) {
+				w.Script = []string{fmt.Sprintf("type %d announces %d bytes, delivers %d", typ, announce, deliver)}
+				w.Failf("a PUBLISH to \"big\" which announces %d bytes of payload and delivers %d came out as BigMessage with topic %q and Size %d", announce-5, deliver, r.BigTopic, r.BigSize)
+			}
 		}
 		if p := w.Panics(); len(p) != 0 {
 			w.Failf("panic in client code: %s", p[0])
